@@ -366,6 +366,9 @@ impl Executor {
                     let mut v1 = v1.into_vector()?;
                     let v2 = v2.into_vector()?;
 
+                    // The combined length must be representable: vectors share structure, so doubling
+                    // one 64 times costs next to nothing and would overflow the length counter.
+                    v1.len().checked_add(v2.len())?;
                     v1.append(v2);
 
                     Some(Value::Vector(v1))
@@ -402,12 +405,14 @@ impl Executor {
                 },
                 OpCode::VPush => self.do_binop(|vec, item| {
                     let mut vec: CatVec<Value, 32> = vec.into_vector()?;
+                    vec.len().checked_add(1)?;
                     vec.push_back(item);
 
                     Some(Value::Vector(vec))
                 })?,
                 OpCode::VCons => self.do_binop(|item, vec| {
                     let mut vec: CatVec<Value, 32> = vec.into_vector()?;
+                    vec.len().checked_add(1)?;
                     vec.insert(0, item);
 
                     Some(Value::Vector(vec))
@@ -419,12 +424,14 @@ impl Executor {
                 OpCode::BPush => self.do_binop(|vec, val| {
                     let mut vec: CatVec<u8, 256> = vec.into_bytes()?;
                     let val: U256 = val.into_int()?;
+                    vec.len().checked_add(1)?;
                     vec.push_back(*val.low() as u8);
 
                     Some(Value::Bytes(vec))
                 })?,
                 OpCode::BCons => self.do_binop(|item, vec| {
                     let mut vec: CatVec<u8, 256> = vec.into_bytes()?;
+                    vec.len().checked_add(1)?;
                     vec.insert(0, item.into_truncated_u8()?);
 
                     Some(Value::Bytes(vec))
@@ -452,6 +459,9 @@ impl Executor {
 
                     log::trace!("Appending a vector that contains {:?} to a vector that contains {:?}", &v2, &v1);
 
+                    // The combined length must be representable: byte strings share structure, so doubling
+                    // one 64 times costs next to nothing and would overflow the length counter.
+                    v1.len().checked_add(v2.len())?;
                     v1.append(v2);
 
                     Some(Value::Bytes(v1))
